@@ -21,6 +21,7 @@ type Query struct {
 	O1    int64  `json:"o1,omitempty"`
 	After string `json:"after,omitempty"`
 	What  string `json:"what,omitempty"` // human label for the digest (b0, mi, ...)
+	Once  bool   `json:"-"`              // run a listing once only (other threads may change the registry meanwhile)
 }
 
 func (q Query) String() string {
@@ -46,6 +47,7 @@ type Obs struct {
 	Bytes []byte
 	Items []string
 	Post  string
+	Again string // set when traversing the same iterator value again gave a different listing
 }
 
 func (o Obs) Text() string {
@@ -54,6 +56,9 @@ func (o Obs) Text() string {
 	}
 	switch o.Q.K {
 	case "Tags", "Repositories", "Referrers":
+		if o.Again != "" {
+			return fmt.Sprintf("%s -> %v [re-run of the same iterator differs]", o.Q, o.Items)
+		}
 		return fmt.Sprintf("%s -> %v", o.Q, o.Items)
 	case "ResolveBlob", "ResolveManifest", "ResolveTag":
 		return fmt.Sprintf("%s -> %s", o.Q, descText(o.Desc))
@@ -154,22 +159,22 @@ func runQuery(ctx context.Context, reg ociregistry.Interface, q Query) (o Obs) {
 	case "ResolveTag":
 		return desc(reg.ResolveTag(ctx, q.Repo, q.Tag))
 	case "Tags":
-		items, err, post := consumeSeq(reg.Tags(ctx, q.Repo, q.After), 0, func(s string) string { return s })
-		o.Items, o.Post = items, post
+		items, err, post, again := consumeAgainUnless(q.Once, reg.Tags(ctx, q.Repo, q.After), func(s string) string { return s })
+		o.Items, o.Post, o.Again = items, post, again
 		if err != nil {
 			return fail(err)
 		}
 		o.OK = true
 	case "Repositories":
-		items, err, post := consumeSeq(reg.Repositories(ctx, q.After), 0, func(s string) string { return s })
-		o.Items, o.Post = items, post
+		items, err, post, again := consumeAgainUnless(q.Once, reg.Repositories(ctx, q.After), func(s string) string { return s })
+		o.Items, o.Post, o.Again = items, post, again
 		if err != nil {
 			return fail(err)
 		}
 		o.OK = true
 	case "Referrers":
-		items, err, post := consumeSeq(reg.Referrers(ctx, q.Repo, ociregistry.Digest(q.Dig), ""), 0, descText)
-		o.Items, o.Post = items, post
+		items, err, post, again := consumeAgainUnless(q.Once, reg.Referrers(ctx, q.Repo, ociregistry.Digest(q.Dig), ""), descText)
+		o.Items, o.Post, o.Again = items, post, again
 		if err != nil {
 			return fail(err)
 		}
@@ -180,6 +185,30 @@ func runQuery(ctx context.Context, reg ociregistry.Interface, q Query) (o Obs) {
 	return o
 }
 
+// consumeAgain drains an iterator value, then runs it again stopping after the first item, then
+// drains it a third time: an iterator value is a description of a listing, not a cursor, so every
+// run starts from the same place (nothing else touches the registry in between).
+func consumeAgain[T any](seq ociregistry.Seq[T], show func(T) string) (items []string, err error, post, again string) {
+	items, err, post = consumeSeq(seq, 0, show)
+	one, _, _ := consumeSeq(seq, 1, show)
+	items3, err3, _ := consumeSeq(seq, 0, show)
+	switch {
+	case len(items) > 0 && (len(one) != 1 || one[0] != items[0]):
+		again = fmt.Sprintf("second run of the same iterator (stopped after one item) gave %v, the first run started with %q", one, items[0])
+	case strings.Join(items, ",") != strings.Join(items3, ",") || (err == nil) != (err3 == nil):
+		again = fmt.Sprintf("third run of the same iterator gave %v err=%v, the first run gave %v err=%v", items3, err3, items, err)
+	}
+	return
+}
+
+func consumeAgainUnless[T any](once bool, seq ociregistry.Seq[T], show func(T) string) (items []string, err error, post, again string) {
+	if once {
+		items, err, post = consumeSeq(seq, 0, show)
+		return
+	}
+	return consumeAgain(seq, show)
+}
+
 // CheckObs compares one observation with the model; "" if consistent.
 func (m *Model) CheckObs(u *universe, o Obs) string {
 	q := o.Q
@@ -187,6 +216,9 @@ func (m *Model) CheckObs(u *universe, o Obs) string {
 	empty := r.empty()
 	if o.Post != "" {
 		return o.Post
+	}
+	if o.Again != "" {
+		return "re-run differs: " + o.Again
 	}
 	wantFail := func(codes ...string) string {
 		if o.OK {
